@@ -265,5 +265,188 @@ theorem lookup_insertKv_other (kvs : List (String × Json)) (k k' : String) (v :
     have h1 : ¬ k = k' := fun e => hk e.symm
     simp [h1]
 
+/-! ### the plugin pipeline -/
+
+theorem traversalProcess_error_indep (cfg : TraversalCfg) (res : SearchResult) (r r' : Resp) (x : Err)
+    (h : traversalProcess cfg res r = .error x) : traversalProcess cfg res r' = .error x := by
+  unfold traversalProcess at h ⊢
+  cases hr : cfg.route with
+  | none =>
+    simp only [hr] at h ⊢
+    cases ht : cfg.tree with
+    | none => simp [ht] at h
+    | some ft =>
+      simp only [ht] at h ⊢
+      cases hm : mapExcept (generateTreeOutput cfg.geoms ft) res.trees with
+      | error y => simpa [hm] using h
+      | ok outs => simp [hm] at h
+  | some fr =>
+    simp only [hr] at h ⊢
+    cases hm : mapExcept (constructRouteOutput cfg.geoms fr) res.routes with
+    | error y => simpa [hm] using h
+    | ok outs =>
+      simp only [hm] at h ⊢
+      cases ht : cfg.tree with
+      | none => simp [ht] at h
+      | some ft =>
+        simp only [ht] at h ⊢
+        cases hm2 : mapExcept (generateTreeOutput cfg.geoms ft) res.trees with
+        | error y => simpa [hm2] using h
+        | ok outs2 => simp [hm2] at h
+
+theorem pluginStep_error_indep (req : Json) (res : SearchResult) (p : Plugin) (r r' : Resp) (x : Err)
+    (h : pluginStep req res p r = .error x) : pluginStep req res p r' = .error x := by
+  cases p with
+  | traversal cfg => exact traversalProcess_error_indep cfg res r r' x h
+  | summary => simp [pluginStep] at h
+  | uuid table =>
+    simp only [pluginStep] at h ⊢
+    cases hu : uuidLookup table (.obj [("request", req)]) with
+    | error y => simpa [hu] using h
+    | ok p => obtain ⟨a, b⟩ := p; simp [hu] at h
+
+theorem runPlugins_error_of_mem (req : Json) (res : SearchResult) (p : Plugin) (r0 : Resp)
+    (he : ∃ x, pluginStep req res p r0 = .error x) :
+    ∀ (ps : List Plugin), p ∈ ps → ∀ r, ∃ x, runPlugins req res ps r = .error x := by
+  intro ps
+  induction ps with
+  | nil => intro hp; simp at hp
+  | cons q qs ih =>
+    intro hp r
+    rw [runPlugins]
+    cases hq : pluginStep req res q r with
+    | error y => exact ⟨y, rfl⟩
+    | ok r1 =>
+      rcases List.mem_cons.1 hp with h | h
+      · subst h
+        obtain ⟨x, hx⟩ := he
+        rw [pluginStep_error_indep req res p r0 r x hx] at hq
+        cases hq
+      · exact ih h r1
+
+theorem traversalProcess_route (cfg : TraversalCfg) (res : SearchResult) (r r' : Resp)
+    (h : traversalProcess cfg res r = .ok r') :
+    (∀ f, cfg.route = some f → ∃ outs, mapExcept (constructRouteOutput cfg.geoms f) res.routes = .ok outs ∧
+        r'.route = some (shape outs)) ∧
+    (cfg.route = none → r'.route = r.route) ∧
+    (∀ f, cfg.tree = some f → ∃ outs, mapExcept (generateTreeOutput cfg.geoms f) res.trees = .ok outs ∧
+        r'.tree = some (shape outs)) ∧
+    (cfg.tree = none → r'.tree = r.tree) ∧
+    r'.routeEdges = r.routeEdges ∧ r'.treeSizeCount = r.treeSizeCount ∧
+    r'.originUuid = r.originUuid ∧ r'.destinationUuid = r.destinationUuid := by
+  unfold traversalProcess at h
+  cases hr : cfg.route with
+  | none =>
+    simp only [hr] at h
+    cases ht : cfg.tree with
+    | none =>
+      simp only [ht] at h
+      injection h with h; subst h
+      simp
+    | some ft =>
+      simp only [ht] at h
+      cases hm : mapExcept (generateTreeOutput cfg.geoms ft) res.trees with
+      | error y => simp [hm] at h
+      | ok outs =>
+        simp only [hm] at h
+        injection h with h; subst h
+        simp
+        exact ⟨outs, hm, rfl⟩
+  | some fr =>
+    simp only [hr] at h
+    cases hm : mapExcept (constructRouteOutput cfg.geoms fr) res.routes with
+    | error y => simp [hm] at h
+    | ok outs =>
+      simp only [hm] at h
+      cases ht : cfg.tree with
+      | none =>
+        simp only [ht] at h
+        injection h with h; subst h
+        simp
+        exact ⟨outs, hm, rfl⟩
+      | some ft =>
+        simp only [ht] at h
+        cases hm2 : mapExcept (generateTreeOutput cfg.geoms ft) res.trees with
+        | error y => simp [hm2] at h
+        | ok outs2 =>
+          simp only [hm2] at h
+          injection h with h; subst h
+          simp
+          exact ⟨⟨outs, hm, rfl⟩, ⟨outs2, hm2, rfl⟩⟩
+
+theorem pluginStep_route_isSome (req : Json) (res : SearchResult) (p : Plugin) (r r' : Resp)
+    (h : pluginStep req res p r = .ok r') :
+    (r.route.isSome = true → r'.route.isSome = true) ∧ (r.tree.isSome = true → r'.tree.isSome = true) := by
+  cases p with
+  | traversal cfg =>
+    obtain ⟨a, b, c, d, _⟩ := traversalProcess_route cfg res r r' h
+    constructor
+    · intro hs
+      cases hr : cfg.route with
+      | none => rw [b hr]; exact hs
+      | some f => obtain ⟨outs, _, ho⟩ := a f hr; simp [ho]
+    · intro hs
+      cases ht : cfg.tree with
+      | none => rw [d ht]; exact hs
+      | some f => obtain ⟨outs, _, ho⟩ := c f ht; simp [ho]
+  | summary =>
+    simp only [pluginStep] at h
+    injection h with h; subst h
+    simp [summaryProcess]
+  | uuid table =>
+    simp only [pluginStep] at h
+    cases hu : uuidLookup table (.obj [("request", req)]) with
+    | error y => simp [hu] at h
+    | ok p =>
+      obtain ⟨a, b⟩ := p
+      simp only [hu] at h
+      injection h with h; subst h
+      simp
+
+theorem runPlugins_route_isSome (req : Json) (res : SearchResult) :
+    ∀ (ps : List Plugin) (r r' : Resp), runPlugins req res ps r = .ok r' →
+      (r.route.isSome = true → r'.route.isSome = true) ∧ (r.tree.isSome = true → r'.tree.isSome = true) := by
+  intro ps
+  induction ps with
+  | nil => intro r r' h; simp only [runPlugins] at h; injection h with h; subst h; simp
+  | cons q qs ih =>
+    intro r r' h
+    rw [runPlugins] at h
+    cases hq : pluginStep req res q r with
+    | error y => simp [hq] at h
+    | ok r1 =>
+      simp only [hq] at h
+      obtain ⟨a, b⟩ := pluginStep_route_isSome req res q r r1 hq
+      obtain ⟨c, d⟩ := ih r1 r' h
+      exact ⟨fun hs => c (a hs), fun hs => d (b hs)⟩
+
+theorem runPlugins_sets_route (req : Json) (res : SearchResult) (cfg : TraversalCfg) :
+    ∀ (ps : List Plugin), Plugin.traversal cfg ∈ ps → ∀ (r r' : Resp), runPlugins req res ps r = .ok r' →
+      ((cfg.route.isSome = true → r'.route.isSome = true) ∧ (cfg.tree.isSome = true → r'.tree.isSome = true)) := by
+  intro ps
+  induction ps with
+  | nil => intro hp; simp at hp
+  | cons q qs ih =>
+    intro hp r r' h
+    rw [runPlugins] at h
+    cases hq : pluginStep req res q r with
+    | error y => simp [hq] at h
+    | ok r1 =>
+      simp only [hq] at h
+      rcases List.mem_cons.1 hp with hm | hm
+      · subst hm
+        obtain ⟨a, _, c, _, _⟩ := traversalProcess_route cfg res r r1 hq
+        obtain ⟨k1, k2⟩ := runPlugins_route_isSome req res qs r1 r' h
+        constructor
+        · intro hs
+          obtain ⟨f, hf⟩ := Option.isSome_iff_exists.1 hs
+          obtain ⟨outs, _, ho⟩ := a f hf
+          exact k1 (by simp [ho])
+        · intro hs
+          obtain ⟨f, hf⟩ := Option.isSome_iff_exists.1 hs
+          obtain ⟨outs, _, ho⟩ := c f hf
+          exact k2 (by simp [ho])
+      · exact ih hm r1 r' h
+
 end Output
 end Compass
